@@ -101,9 +101,15 @@ func randomChooser(r *hx.Rng, stopPct int) dsx.Chooser {
 				}
 			}
 		}
-		x := r.Intn(100)
+		x := r.Intn(112)
 		var class []int
 		switch {
+		case x >= 100: // [proxy10] an event in the back-off / a reset of a streamed response before its head is forwarded
+			if x < 109 {
+				class = has("ZB:")
+			} else {
+				class = has("ZS")
+			}
 		case x < 12:
 			class = has("B")
 		case x < 38:
@@ -391,6 +397,15 @@ func RunMany(c *hx.Ctx, prop string, n, par int, c10 bool) {
 				for _, l := range strings.Split(res.Sched, ",") {
 					k := strings.TrimRight(strings.SplitN(l, ":", 2)[0], "0123456789")
 					c.Count("label." + k)
+					if strings.HasPrefix(l, "ZB:") { // [proxy10] trigger kind x event
+						q := strings.SplitN(l[3:], ":", 2)
+						c.Count("backoff.trigger=" + q[0][:1])
+						c.Count("backoff.event=" + strings.TrimRight(q[1], "0123456789"))
+					}
+					if strings.HasPrefix(l, "ZS") {
+						q := strings.Split(l, ":")
+						c.Count("streamed-reset.at=" + q[3])
+					}
 				}
 				if strings.Contains(res.Out, "done=1") {
 					c.Count("outcome.done")
@@ -559,6 +574,53 @@ func RunMany(c *hx.Ctx, prop string, n, par int, c10 bool) {
 		{"S", "PL0:10", "DR"}, {"S", "XL0:ConnectionFailed:10", "GT"}, {"S", "HG", "XL0:ConnectionFailed:10"}, {"S", "PFo", "PL0:10"},
 		{"S", "R*:503:10", "XL1:ConnectionFailed:10"},
 	}})
+	// [proxy10] events in the back-off of doRetry: every event after every trigger, then nothing / the answer of the attempt
+	// that exists afterwards / a second back-off / the global timeout
+	boCfg := func() dsx.Cfg {
+		cfg := dsx.Cfg{Route: "c", RetryOn: true, N: rng.Pick([]int{1, 2, 3}), Data: rng.Chance(30), Trailers: rng.Chance(15)}
+		if c10 {
+			cfg.MR = rng.Pick([]int{0, 1, 2})
+			cfg.MQ = rng.Pick([]int{0, 1, 2})
+			cfg.AR = rng.Intn(2)
+		}
+		return cfg
+	}
+	var boScripts [][]string
+	for _, trig := range []string{"X*=ConnectionFailed", "X*=ConnectionTermination", "R*=503=00", "R*=503=10", "R*=500=01"} {
+		for _, ev := range append(append([]string{}, dsx.BOEvents...), dsx.BOTimerEvents...) {
+			if !c.Thorough() && rng.Chance(40) {
+				continue
+			}
+			tails := []string{"", "R*:200:00", "R*:200:10", "GT", "X*:StreamRemoteReset", "ZB:X*=ConnectionFailed:DR", "ZB:X*=ConnectionFailed:TM403"}
+			tail := tails[rng.Intn(len(tails))]
+			sc := []string{"S", "ZB:" + trig + ":" + ev}
+			if tail != "" {
+				sc = append(sc, tail)
+			}
+			boScripts = append(boScripts, sc)
+		}
+	}
+	boScripts = append(boScripts, []string{"S", "R*:503:10", "ZB:X*=ConnectionFailed:GSs"}, []string{"S", "W", "ZB:X*=ConnectionFailed:GSm", "R*:200:00"},
+		[]string{"S", "HG", "ZB:X*=ConnectionFailed:TM418"}, []string{"S", "PFc", "ZB:X*=ConnectionFailed:DR"},
+		[]string{"S", "ZB:X*=StreamRemoteReset:TM418"}, []string{"S", "ZB:X*=StreamOverflow:DR"})
+	fams = append(fams, fam{"bo", boCfg, boScripts})
+	// the client leaves while the wake-up is inside the upstream send of the next attempt (requests with a body / trailers)
+	fams = append(fams, fam{"bods", func() dsx.Cfg { cfg := boCfg(); cfg.Data = true; cfg.Trailers = rng.Chance(40); return cfg }, [][]string{
+		{"S", "ZB:X*=ConnectionFailed:DS"}, {"S", "ZB:R*=503=00:DS"}, {"S", "ZB:X*=ConnectionTermination:DS"}, {"S", "ZB:R*=503=10:DS"},
+		{"S", "X*:ConnectionFailed", "ZB:X*=ConnectionFailed:DS"},
+	}})
+	// … after a per-try timeout
+	fams = append(fams, fam{"bop", func() dsx.Cfg { cfg := boCfg(); cfg.TryTimeout = true; return cfg }, [][]string{
+		{"S", "ZB:P*:TM418"}, {"S", "ZB:P*:TMs403", "R*:200:00"}, {"S", "ZB:P*:DR"}, {"S", "ZB:P*:CC"}, {"S", "ZB:P*:HG"},
+		{"S", "ZB:P*:TM418", "GT"}, {"S", "X*:ConnectionFailed", "ZB:P*:DR"},
+	}})
+	// the reset of a streamed response before its head is forwarded: at the top of UpRecvHeader / inside UpFilter
+	fams = append(fams, fam{"sr", func() dsx.Cfg { cfg := boCfg(); cfg.N = rng.Pick([]int{0, 1, 2}); cfg.RetryOn = rng.Chance(70); return cfg }, [][]string{
+		{"S", "ZS*:200:10:h:ConnectionTermination"}, {"S", "ZS*:200:10:h:ConnectionTermination", "R*:200:00"}, {"S", "ZS*:200:11:h:StreamRemoteReset"},
+		{"S", "ZS*:200:11:f:ConnectionTermination", "R*:200:10"}, {"S", "ZS*:503:10:h:ConnectionFailed", "R*:200:00"},
+		{"S", "X*:ConnectionFailed", "ZS*:200:10:h:ConnectionTermination"}, {"S", "ZS*:200:10:h:ConnectionTermination", "ZS*:200:10:h:ConnectionTermination"},
+		{"S", "ZS*:200:10:h:StreamRemoteReset", "GT"}, {"S", "ZS*:200:01:f:StreamRemoteReset"},
+	}})
 	for _, fm := range fams {
 		for _, sc := range fm.scripts {
 			reps := 1
@@ -622,8 +684,13 @@ func Run(c *hx.Ctx) {
 		RunTB(c, "C03")
 		return
 	}
+	if len(c.Args) > 0 && c.Args[0] == "p10only" { // development aid
+		RunP10(c, "C03")
+		return
+	}
 	RunMany(c, "C03", c.N(700, 2500), 8, false)
 	RunUpf(c, "C03")
 	RunXP(c, "C03") // proxy8: reset, then the per-try timer, with the worker held in the upstream sender
 	RunTB(c, "C03") // proxy9: TerminateStream lands inside doRetry's back-off sleep
+	RunSRW(c, "C03") // proxy10: a streamed response is reset before the worker picked its head up
 }
